@@ -57,6 +57,14 @@ def gen(rng, thorough):
                        ("second_daemon",)]
         h["id"] = "c02-stale-%d" % k
         hs.append(h)
+    # injectors that abort (envelope cut short) and whose clean-up meets a failing call (each of their calls in turn): what they
+    # leave behind is still a documented state, and is collected later
+    for k in range(6, 16):
+        idx += 1
+        h = base(idx, 2, rng)
+        h["script"] = [("inject_fault", 0, k, "5", rng.choice([1, 2, 5])), ("inject", 1), ("answer", "fifo"), ("advance", 130000), ("advance", 76431), ("advance", 76431)]
+        h["id"] = "c02-abort-fault-%d" % k
+        hs.append(h)
     # the 36-hour rule sampled inside the window: the clean-up scan runs at start-up, so the daemon is restarted when the stale
     # entry is 100000 + x seconds old (must stay) and again when it is older than 36 hours (may go)
     for k, age in ((3, 100800), (5, 115000), (9, 129000), (12, 129599)):
